@@ -85,7 +85,7 @@ def lean_ty(t):
     raise Unsupported(f"no Lean type for {t}")
 
 
-STRUCT_LEAN = {"QReg": "QRegG R", "CReg": "CRegG", "VReg": "VRegG", "SingleOp": "SingleOp R", "BitsIter": "BitsIterG",
+STRUCT_LEAN = {"AstNode": "Node R", "Inner": "Inner R", "PExpr": "PExpr R", "Macro": "Macro R", "QReg": "QRegG R", "CReg": "CRegG", "VReg": "VRegG", "SingleOp": "SingleOp R", "BitsIter": "BitsIterG",
                "Atom": "Atom R", "ExtOp": "ExtOp R", "Sep": "Sep", "MeasureOp": "MeasureOp", "Sym": "SymG R", "Int": "Interp R", "Argument": "Arg", "IntError": "IntError"}
 STRUCT_FIELDS = {
     "QReg": [("psi", ("vec", "C")), ("q_num", "N"), ("q_mask", "N")],
@@ -311,6 +311,12 @@ class Emitter:
             return "str"
         if t.startswith("Argument"):
             return ("struct", "Argument")
+        if t in ("AstNode<'t>", "AstNode"):
+            return ("struct", "AstNode")
+        if t in ("Box<AstNode<'t>>",):
+            return ("struct", "Inner")        # the statement under `if`: a gate application or anything else (Model/Interp.lean)
+        if t in ("Ast<'t>", "Ast"):
+            return ("vec", ("struct", "AstNode"))
         m = re.fullmatch(r"Result<'t,(.*)>", t)
         if m:
             inner = m.group(1)
@@ -414,6 +420,24 @@ class Emitter:
                     out.append(atom(vs[i]))
             return "(" + " ++ ".join(out or ['""']) + ")", "str"
         if k == "try":
+            inner = unparen(e[1])
+            if inner[0] == "mcall" and inner[2] == "collect" and not inner[3] and unparen(inner[1])[0] == "mcall" \
+                    and unparen(inner[1])[2] == "map" and len(unparen(inner[1])[3]) == 1 and self.monad == "Except":
+                # ITER.map(|x| -> Result<T, _>).collect::<Result<Vec<T>, _>>()? : the first error wins, in order
+                src, clos = unparen(inner[1])[1], unparen(unparen(inner[1])[3][0])
+                if clos[0] != "closure":
+                    self.fail("map with something else than a closure")
+                it = self.iter_of(src, env)
+                if it["mut"] is not None:
+                    self.fail("collect over iter_mut()")
+                f, tf, mon = self.closure(clos, [it["elem"]], env)
+                if mon or not (isinstance(tf, tuple) and tf[0] == "res"):
+                    self.fail("collect into a Result of a closure that does not return a Result")
+                u = self.gensym("u")
+                self.pending.append((u, f"List.mapM ({f}) {atom(it['list'])}"))
+                self.monadic = True
+                self.nflush += 1
+                return u, ("vec", tf[1])
             v, t = self.ex(e[1], env)
             if not (isinstance(t, tuple) and t[0] == "res"):
                 self.fail("? on a value that is not a Result")
@@ -821,6 +845,19 @@ class Emitter:
     def mcall(self, e, env, want):
         recv, name, args = e[1], e[2], e[3]
         r0 = unparen(recv)
+        if name == "map_err" and len(args) == 1 and r0[0] == "call" and unparen(r0[1]) == ("path", ["parse", "eval_extended"]) \
+                and len(r0[2]) == 2 and unparen(r0[2][1]) == ("path", ["None"]):
+            # parse::eval_extended(arg, None).map_err(|e| Error::UnevaluatedArgument(arg, e)): parse.rs is mirrored by hand
+            # (Model/Interp.lean `evalExtended`, text tied by tools/canon.py); `Interp.evalArg` is exactly this composition
+            c = unparen(args[0])
+            x = unparen(r0[2][0])
+            if c[0] == "closure" and len(c[1]) == 1 and c[1][0][0] == "pid" and \
+                    unparen(c[2]) == ("call", ("path", ["Error", "UnevaluatedArgument"]), [x, ("path", [c[1][0][1]])]):
+                xv, xt = self.ex(x, env)
+                if xt != ("struct", "PExpr"):
+                    self.fail("eval_extended of something else than a parameter expression")
+                return f"(Interp.evalArg {atom(xv)})", ("res", "R")
+            self.fail("map_err closure is not |e| Error::UnevaluatedArgument(arg, e)")
         # iterator sinks
         if name in ("collect", "sum", "fold", "count", "all", "for_each", "max", "min", "nth") and self.is_iter_expr(r0):
             return self.sink(e, env, want)
@@ -885,6 +922,19 @@ class Emitter:
                 return f"Cx.normSq {atom(v)}", "R"
             if name == "conj" and not args:
                 return f"Cx.conj {atom(v)}", "C"
+        if isinstance(t, tuple) and t[0] == "map":
+            if name == "clone" and not args:
+                return v, t
+            if name == "contains_key" and len(args) == 1:
+                kx, kt = self.ex(args[0], env, "str")
+                if kt != "str":
+                    self.fail("contains_key with a key that is not a name")
+                return f"(Rs.mapContains {atom(v)} {atom(kx)})", "bool"
+            if name == "get" and len(args) == 1:
+                kx, kt = self.ex(args[0], env, "str")
+                if kt != "str":
+                    self.fail("get with a key that is not a name")
+                return f"(Rs.mapGet {atom(v)} {atom(kx)})", ("opt", ("struct", t[1]))
         if isinstance(t, tuple) and t[0] == "opt":
             if name in ("unwrap", "expect"):
                 u = self.gensym("u")
@@ -1031,6 +1081,11 @@ class Emitter:
             return f"({ctor} " + " ".join(atom(v) for v, _ in vs) + ")", ("struct", segs[-2])
         if segs[-2:] == ["Error", last] and last[0].isupper():
             # the interpreter's error type: same constructor names, lower camel case, in the model
+            if last == "DisallowedNodeInIf" and len(args) == 1:
+                _, ta = self.ex(args[0], env)
+                if ta != ("struct", "OtherNode"):
+                    self.fail("DisallowedNodeInIf of something else than the unmatched statement")
+                return "IntError.disallowedNodeInIf", ("struct", "IntError")      # the model does not keep the offending node
             vs = [self.ex(a, env) for a in args]
             ctor = "IntError." + last[0].lower() + last[1:]
             return (f"({ctor} " + " ".join(atom(v) for v, _ in vs) + ")") if vs else ctor, ("struct", "IntError")
@@ -1057,6 +1112,8 @@ class Emitter:
             if tb != ("vec", "N"):
                 self.fail("VReg(.., bits) with a non-list")
             return f"({{ bits := {b} }} : VRegG)", ("struct", "VReg")
+        if segs == ["Self", "default"] and not args and self.self_struct == ("struct", "Int"):
+            return "({} : Interp R)", ("struct", "Int")
         if segs[-2:] == ["MultiOp", "default"] and not args:
             return "([] : List (SingleOp R))", MULTIOP
         gen_t = ("vec", self.ty_of_text(f[2])) if len(f) > 2 and f[2] else None
@@ -1172,6 +1229,29 @@ class Emitter:
         # match self.th { Single => A, Multi(n) => global_install(n, || B) }
         if self.is_threading_match(e):
             return self.ex(self.threading_arm(e), env, want)
+        arms = e[2]
+        if len(arms) == 2 and all(a[1] is None for a in arms) and self.monad == "Except" \
+                and arms[0][0][0] == "ppath" and arms[0][0][1] == ["Some"] and arms[0][0][2] and len(arms[0][0][2]) == 1 \
+                and arms[0][0][2][0][0] == "pid" and arms[1][0] == ("ppath", ["None"], None) \
+                and unparen(arms[0][2])[0] == "try" and unparen(arms[1][2])[0] == "try":
+            # match OPT { Some(x) => A?, None => B? }  is  (match OPT { Some(x) => A, None => B })?
+            sv, st = self.ex(scrut, env)
+            if not (isinstance(st, tuple) and st[0] == "opt"):
+                self.fail("match Some / None on something else than an Option")
+            x = arms[0][0][2][0][1]
+            env2 = dict(env); env2[x] = (lname(x), st[1])
+            n0 = len(self.pending)
+            a, ta = self.ex(unparen(arms[0][2])[1], env2)
+            b, tb = self.ex(unparen(arms[1][2])[1], env)
+            if len(self.pending) != n0:
+                self.fail("match arms with hoisted effects")
+            if ta != tb or not (isinstance(ta, tuple) and ta[0] == "res"):
+                self.fail(f"match arms of types {ta} / {tb}")
+            u = self.gensym("u")
+            self.pending.append((u, f"(match {sv} with | some {lname(x)} => {a} | none => {b})"))
+            self.monadic = True
+            self.nflush += 1
+            return u, ta[1]
         self.fail("match expression")
 
     def threading_arm(self, e):
@@ -1297,6 +1377,8 @@ class Emitter:
                     return cont(env)
                 self.fail(f"macro {e[1]}!")
             if e[0] == "try":
+                if self.try_mut_sig(e, env) is not None:
+                    return self.effect(e, env, cont)
                 self.ex(e, env)
                 return self.with_pending(lambda: cont(env))
             return self.effect(e, env, cont)
@@ -1381,6 +1463,8 @@ class Emitter:
             return True
         if e[0] == "call" and unparen(e[1])[0] == "path" and unparen(e[1])[1][-1] in ("swap", "unreachable_unchecked"):
             return True
+        if e[0] == "try" and env is not None and self.try_mut_sig(e, env) is not None:
+            return True
         if e[0] == "mcall" and e[2] in self.tr.mut_method_names and env is not None:
             saved = list(self.pending)
             try:
@@ -1452,6 +1536,11 @@ class Emitter:
         if e0[0] == "call" and unparen(e0[1])[0] == "path" and unparen(e0[1])[1][-2:] == ["mem", "take"] and len(e0[2]) == 1 and pat[0] == "pid":
             place = e0[2][0]
             old, told = self.ex(place, env)
+            if told == ("struct", "ExtOp"):
+                n = lname(pat[1])
+                env2 = dict(env); env2[pat[1]] = (n, told)
+                # `mem::take` leaves `Op::default()` (no blocks, empty tail) behind
+                return self.wrap_lets([f"let {n} := {old}"], self.set_place(place, "({ blocks := [], tail := [] } : ExtOp R)", env2, cont))
             if not (isinstance(told, tuple) and told[0] == "vec"):
                 self.fail("mem::take of something else than a queue")
             n = lname(pat[1])
@@ -1598,7 +1687,33 @@ class Emitter:
         self.fail("assignment path")
 
     # ---- effects: statements that are calls
+    def try_mut_sig(self, e, env):
+        """`RECV.method(.., &mut x, ..)?` where the method returns `Result<(), _>` and has `&mut` parameters"""
+        if e[0] != "try":
+            return None
+        inner = unparen(e[1])
+        if inner[0] != "mcall" or inner[2] not in self.tr.mut_method_names:
+            return None
+        saved = list(self.pending)
+        try:
+            rv0, rt0 = self.ex(inner[1], dict(env))
+        except Unsupported:
+            return None
+        finally:
+            self.pending = saved
+        if isinstance(rt0, tuple) and rt0[0] == "struct":
+            sig = self.tr.method(rt0[1], inner[2])
+            if sig is not None and sig.muts and sig.kind == "Except" and sig.ret == "unit":
+                return inner, sig
+        return None
+
     def effect(self, e, env, cont):
+        tm = self.try_mut_sig(e, env)
+        if tm is not None:
+            if self.monad != "Except":
+                self.fail("? in a function that does not return a Result")
+            inner, sig = tm
+            return self.call_mut(sig, inner[1], inner[3], env, cont, None)
         if e[0] == "mcall":
             recv, name, args = unparen(e[1]), e[2], e[3]
             if name == "for_each" and self.is_iter_expr(recv):
@@ -1638,6 +1753,13 @@ class Emitter:
                         return self.set_place(recv, f"Rs.resize {atom(rv)} {atom(n)} {atom(x)}", env, cont)
                     if name in ("push", "push_back") and len(args) == 1:
                         x, tx = self.ex(args[0], env, rt[1])
+                        if rt[1] == "Ast":
+                            # the record of accepted source chunks: the model keeps the node count of each chunk
+                            if tx != ("vec", ("struct", "AstNode")):
+                                self.fail("push of something else than an Ast onto the chunk record")
+                            x = f"List.length {atom(x)}"
+                        elif tx != rt[1] and not (is_int(tx) and is_int(rt[1])) and tx is not None:
+                            self.fail(f"push of {tx} onto a vector of {rt[1]}")
                         return self.with_pending(lambda: self.set_place(recv, f"{atom(rv)} ++ [{x}]", env, cont))
                     if name == "append" and len(args) == 1:
                         other = unparen(args[0])
@@ -1656,6 +1778,12 @@ class Emitter:
                         it = self.iter_of(args[0], env)
                         return self.with_pending(lambda: self.set_place(recv, f"{atom(rv)} ++ {atom(it['list'])}", env, cont))
                 if isinstance(rt, tuple) and rt[0] == "map":
+                    if name == "insert" and len(args) == 2:
+                        kx, kt = self.ex(args[0], env, "str")
+                        vx, vt = self.ex(args[1], env, ("struct", rt[1]))
+                        if kt != "str" or vt != ("struct", rt[1]):
+                            self.fail(f"insert of ({kt}, {vt}) into a map of {rt[1]}")
+                        return self.with_pending(lambda: self.set_place(recv, f"Rs.mapInsert {atom(rv)} {atom(kx)} {atom(vx)}", env, cont))
                     if name == "extend" and len(args) == 1:
                         x, tx = self.ex(args[0], env, rt)
                         if tx != rt:
@@ -1733,7 +1861,10 @@ class Emitter:
         if len(all_args) != len(sig.params):
             self.fail(f"call of {sig.lean} with {len(all_args)} arguments")
         for a, (pn, pt) in zip(all_args, sig.params):
-            argv.append(self.ex(a, env, pt))
+            if isinstance(pt, tuple) and pt[0] == "vec" and pn not in sig.muts and self.is_iter_expr(unparen(a)):
+                argv.append((self.iter_of(a, env)["list"], pt))      # `impl IntoIterator` parameter given an iterator
+            else:
+                argv.append(self.ex(a, env, pt))
             if pn in sig.muts:
                 mut_places.append(a)
         largs = [atom(v) for v, _ in argv]
@@ -1755,6 +1886,13 @@ class Emitter:
                 return self.set_place(mut_places[i], names[idx + i], env3, lambda env4: chain(i + 1, env4))
             return chain(0, env2)
         pat = names[0] if len(names) == 1 else "(" + ", ".join(names) + ")"
+        if sig.kind == "Except":
+            self.monadic = True
+            self.nflush += 1
+            def mk():
+                v, t = rest()
+                return f"Except.bind ({call}) (fun {pat} => {v})", t
+            return self.with_pending(mk)
         if sig.monadic:
             self.monadic = True
             self.nflush += 1
@@ -1843,7 +1981,9 @@ class Emitter:
                             out.append(r)
                     except Unsupported:
                         pass
-                if e[2] in self.tr.mut_method_names or e[2] in ("push", "push_back", "append", "extend", "resize", "mul_assign"):
+                recv_mut = e[2] in ("push", "push_back", "append", "extend", "resize", "mul_assign") or \
+                    (e[2] in self.tr.mut_method_names and (not self.tr.sigs_named(e[2]) or any("self" in sg.muts for sg in self.tr.sigs_named(e[2]))))
+                if recv_mut:
                     try:
                         r, p = self.place_path(e[1], {**env, **{l: (l, None) for l in local}})
                         if r not in local and r not in out:
@@ -2044,13 +2184,29 @@ class Emitter:
     ENUMS = {"Argument": {"Qubit": ("Arg.qubit", ["str", "i32"]), "Register": ("Arg.register", ["str"])},
              "Sep": {"Nop": ("Sep.nop", []), "Measure": ("Sep.measure", ["N", "N"]), "IfBranch": ("Sep.ifBranch", ["N", "N"]),
                      "Reset": ("Sep.reset", ["N"])},
-             "MeasureOp": {"Set": ("MeasureOp.set", []), "Xor": ("MeasureOp.xor", [])}}
+             "MeasureOp": {"Set": ("MeasureOp.set", []), "Xor": ("MeasureOp.xor", [])},
+             # qasm::AstNode as the model's `Node R` (Model/Interp.lean): the third component says how the Rust payload
+             # maps onto the model constructor - "drop": the model constructor has no payload; ("record", fields): one
+             # payload whose fields are the Rust components
+             "AstNode": {"QReg": ("Node.qreg", ["str", "i32"]), "CReg": ("Node.creg", ["str", "i32"]),
+                         "Barrier": ("Node.barrier", [("struct", "Argument")], "drop"),
+                         "Reset": ("Node.reset", [("struct", "Argument")]),
+                         "Measure": ("Node.measure", [("struct", "Argument"), ("struct", "Argument")]),
+                         "ApplyGate": ("Node.apply", ["str", ("vec", ("struct", "Argument")), ("vec", ("struct", "PExpr"))],
+                                       ("record", ["name", "regs", "args"])),
+                         "Opaque": ("Node.opaque", ["str", ("vec", ("struct", "Argument")), ("vec", "str")], "drop"),
+                         "Gate": ("Node.gate", ["str", ("vec", "str"), ("vec", "str"), ("vec", ("struct", "Inner"))]),
+                         "If": ("Node.ifn", ["str", "i32", ("struct", "Inner")])}}
 
     def enum_match(self, e, env, k, want):
         """`match x { Enum::A(p, q) => S1, Enum::B => S2, .. }` on the interpreter's enums; every arm is a statement
         block that continues with the rest of the function"""
         scrut = unparen(e[1])
+        if scrut[0] == "un" and scrut[1] == "*":
+            scrut = unparen(scrut[2])
         v, t = self.ex(scrut, env)
+        if t == ("struct", "Inner"):
+            return self.inner_match(e, v, env, k, want)
         if not (isinstance(t, tuple) and t[0] == "struct" and t[1] in self.ENUMS):
             self.fail(f"match on a value of type {t}")
         variants = self.ENUMS[t[1]]
@@ -2060,17 +2216,28 @@ class Emitter:
             for pat, guard, body in e[2]:
                 if guard is not None or pat[0] != "ppath" or len(pat[1]) != 2 or pat[1][0] != t[1] or pat[1][1] not in variants:
                     self.fail("match arm pattern")
-                ctor, tys = variants[pat[1][1]]
+                ctor, tys = variants[pat[1][1]][:2]
+                shape = variants[pat[1][1]][2] if len(variants[pat[1][1]]) > 2 else None
                 subs = pat[2] or []
                 if len(subs) != len(tys) or any(p[0] not in ("pid", "pwild") for p in subs):
                     self.fail("match arm payload pattern")
                 env2 = dict(env)
                 names = []
-                for p, ty in zip(subs, tys):
-                    n = lname(p[1]) if p[0] == "pid" else "_"
-                    names.append(n)
-                    if p[0] == "pid":
-                        env2[p[1]] = (n, ty)
+                if shape == "drop":
+                    if any(p[0] != "pwild" for p in subs):
+                        self.fail(f"{pat[1][1]}: the model constructor has no payload, the arm binds one")
+                elif isinstance(shape, tuple) and shape[0] == "record":
+                    rec = self.gensym("c")
+                    names.append(rec)
+                    for p, ty, fld in zip(subs, tys, shape[1]):
+                        if p[0] == "pid":
+                            env2[p[1]] = (f"{rec}.{fld}", ty)
+                else:
+                    for p, ty in zip(subs, tys):
+                        n = lname(p[1]) if p[0] == "pid" else "_"
+                        names.append(n)
+                        if p[0] == "pid":
+                            env2[p[1]] = (n, ty)
                 seen.append(pat[1][1])
                 if body[0] == "block":
                     bv, bt = self.stmts(body[1], body[2], env2, k, want)
@@ -2085,6 +2252,26 @@ class Emitter:
             self.fail(f"match does not list every variant exactly once: {seen}")
         ty = next((bt for _, bt in res if bt is not None), None)
         return self.with_pending(lambda: (f"(match {v} with " + " ".join(a for a, _ in res) + ")", ty))
+
+    def inner_match(self, e, v, env, k, want):
+        """`match *if_block { x @ AstNode::ApplyGate(_, _, _) => A, y => B }` on the statement under `if`, which the model
+        represents as `Inner.call c | Inner.other` (a gate application with its three components, or anything else)"""
+        arms = e[2]
+        if len(arms) != 2 or any(a[1] is not None for a in arms):
+            self.fail("match on the statement under if: arms")
+        (p1, _, b1), (p2, _, b2) = arms
+        if not (p1[0] == "pat_at" and p1[2] == ("ppath", ["AstNode", "ApplyGate"], [("pwild",), ("pwild",), ("pwild",)]) and p2[0] == "pid"):
+            self.fail("match on the statement under if: patterns")
+        c = self.gensym("c")
+        env1 = dict(env); env1[p1[1]] = (f"(Node.apply {c})", ("struct", "AstNode"))
+        env2 = dict(env); env2[p2[1]] = ("OTHER_STATEMENT", ("struct", "OtherNode"))
+        def arm(body, envx):
+            if body[0] == "block":
+                return self.stmts(body[1], body[2], envx, k, want)
+            return self.stmts([], body, envx, k, want)
+        a, ta = arm(b1, env1)
+        b, tb = arm(b2, env2)
+        return self.with_pending(lambda: (f"(match {v} with | Inner.call {c} => {a} | Inner.other => {b})", ta or tb))
 
     def iflet(self, e, env, k, want, is_tail):
         """`if let Some((x, Sep::Nop)) = V.back_mut() { A } else { B }`: A may update the last element through x"""
@@ -2280,6 +2467,8 @@ class Emitter:
             self.bind_pat(pat, a, it["elem"], env2, lets)
             def on_continue(env3):
                 p = self.pack_state(state, env3)
+                if monadic and self.monad == "Except":
+                    return f"(Except.ok {atom(p)} : Except IntError {atom(' × '.join(atom(lean_ty(t)) for t in tys))})", None
                 return (f"some {atom(p)}" if monadic else p), None
             self.loop_handlers = self.loop_handlers + [{"continue": on_continue, "break": None}]
             saved = self.pending; self.pending = []
@@ -2308,7 +2497,7 @@ class Emitter:
                     used.append(r)
             binder = "".join(f" ({env[r][0]} : {lean_ty(env[r][1])})" for r in used)
             st_ty = " × ".join(atom(lean_ty(t)) for t in tys)
-            res_ty = f"Option ({st_ty})" if monadic else st_ty
+            res_ty = (f"Except IntError ({st_ty})" if self.monad == "Except" else f"Option ({st_ty})") if monadic else st_ty
             self.aux.append(f"def {name}{binder} : {atom(st_ty)} → {atom(lean_ty(it['elem']))} → {res_ty} :=\n  {f}\n")
             return "(" + " ".join([name] + [env[r][0] for r in used]) + ")"
         f, left = translate(False)
@@ -2321,7 +2510,7 @@ class Emitter:
             lets2 = []
             self.unpack_state(res, state, tys, env3, lets2)
             inner, t = self.wrap_lets(lets2, cont(env3))
-            return f"Option.bind (List.foldlM {named(f, True)} {self.pack_state(state, env)} {atom(it['list'])}) (fun {res} => {inner})", t
+            return f"{self.monad}.bind (List.foldlM {named(f, True)} {self.pack_state(state, env)} {atom(it['list'])}) (fun {res} => {inner})", t
         self.monadic = m0 or self.monadic
         res = self.gensym("st")
         env3 = dict(env)
@@ -2538,6 +2727,65 @@ class Translator:
         except (Unsupported, IndexError, KeyError, TypeError, AttributeError):
             pass
 
+    def tail_mut_calls(self, body):
+        """a `Result<(), _>`-valued call of a method with `&mut` parameters in tail position (`self.process_qreg(changes, ..)`,
+        possibly as the value of every arm of a tail `match`) is read as `{ CALL?; Ok(()) }` - the same value"""
+        OK = ("call", ("path", ["Ok"]), [("tuple", [])])
+        def is_mut_call(e):
+            e = unparen(e)
+            return e[0] == "mcall" and e[2] in self.mut_method_names and unparen(e[1]) == ("path", ["self"]) and \
+                any((sg.kind == "Except" and sg.ret == "unit") for sg in self.sigs_named(e[2]))
+        def fix(e):
+            if e is None:
+                return e
+            u = unparen(e)
+            if is_mut_call(u):
+                return ("block", [("expr", ("try", u))], OK)
+            if u[0] == "block" and u[2] is not None:
+                return ("block", u[1], fix(u[2]))
+            if u[0] == "match" and is_mut_call(u[1]) and len(u[2]) == 2:
+                # match CALL { Ok(_) => A, Err(err) => Err(err) }  is  { CALL?; A }
+                (p1, g1, b1), (p2, g2, b2) = u[2]
+                if g1 is None and g2 is None and p1 == ("ppath", ["Ok"], [("pwild",)]) and p2[0] == "ppath" and p2[1] == ["Err"] \
+                        and p2[2] and len(p2[2]) == 1 and p2[2][0][0] == "pid" \
+                        and unparen(b2) == ("call", ("path", ["Err"]), [("path", [p2[2][0][1]])]):
+                    a = unparen(b1)
+                    if a[0] == "block":
+                        return ("block", [("expr", ("try", unparen(u[1])))] + a[1], a[2])
+                    return ("block", [("expr", ("try", unparen(u[1])))], a)
+            if u[0] == "match":
+                return ("match", u[1], [(pat, guard, fix(b)) for pat, guard, b in u[2]]) + tuple(u[3:])
+            return e
+        def early_try(b):
+            """`let res = CALL(&mut x); S..; res?;` (S.. not mentioning res) is `CALL(&mut x)?; S..`: on Err the function
+            returns Err either way and a `Result`-returning translation carries no state on Err"""
+            if not (isinstance(b, tuple) and b and b[0] == "block"):
+                return b
+            stmts = list(b[1])
+            for i, st in enumerate(stmts):
+                if st[0] == "let" and st[1][0] == "pid" and st[3] is not None and is_mut_call(st[3]):
+                    r = st[1][1]
+                    for j in range(i + 1, len(stmts)):
+                        if stmts[j] == ("expr", ("try", ("path", [r]))):
+                            mid = stmts[i + 1:j] + stmts[j + 1:]
+                            if not any(n == ("path", [r]) for x in mid + [b[2]] for n in walk(x)):
+                                stmts = stmts[:i] + [("expr", ("try", unparen(st[3])))] + stmts[i + 1:j] + stmts[j + 1:]
+                            break
+                    break
+            return ("block", [deep(x) for x in stmts], deep(b[2])) + tuple(b[3:])
+        def deep(x):
+            if isinstance(x, tuple):
+                if x and x[0] == "block":
+                    return early_try(x)
+                return tuple(deep(y) for y in x)
+            if isinstance(x, list):
+                return [deep(y) for y in x]
+            return x
+        if body[0] == "block":
+            body = ("block", body[1], fix(body[2])) + tuple(body[3:])
+            return early_try(body)
+        return body
+
     def scratch_cell(self, body):
         """virtl.rs returns a reference to a value by parking it in the register's scratch cell:
         `self.0.replace(X); unsafe { self.0.as_ptr().as_ref().unwrap() }` denotes X"""
@@ -2558,6 +2806,7 @@ class Translator:
         try:
             params, ret, body = find_fn(toks, rust, impl=impl, nth=nth)
             body = self.scratch_cell(body)
+            body = self.tail_mut_calls(body)
             self_ty = MULTIOP if struct == "MultiOp" else (("struct", struct) if struct else None)
             em = Emitter(self, where, self_ty)
             env, ps, muts = {}, [], []
@@ -2987,6 +3236,55 @@ def main():
         tr.name_for_bodies = False
         tr.generic_op_is_multi = False
     group("qasm/sym.rs", symfile)
+
+    # ---- qasm/int/mod.rs, second part: statement dispatch and the session entry points. Gate application / definition / `if`
+    # are handed on to the model's functions (glue `Interp.ext*` in Model/Interp.lean) as long as they are mirrored by hand
+    # (tools/canon.py ties their text)
+    def intfile2(t):
+        I = r"impl < 't > Int < 't >"
+        tr.out.append("section intstmts\nvariable [ExprFns R] [AngleFns R]\n")
+        INT, ARG = ("struct", "Int"), ("struct", "Argument")
+        def ext(rust, lean, ps):
+            sg = Sig(lean, [("self", INT), ("changes", INT)] + ps, "unit", ["changes"])
+            sg.kind = "Except"; sg.monadic = True
+            tr.register("Int", rust, sg)
+        mproc = Sig("Macro.processE", [("self", ("struct", "Macro")), ("name", "str"), ("regs", ("vec", "N")), ("args", ("vec", "R")), ("macros", ("map", "Macro"))], MULTIOP, [])
+        mproc.kind = "Except"; mproc.monadic = True
+        tr.register("Macro", "process", mproc)
+        gproc = Sig("Gates.processE", [("name", "str"), ("regs", ("vec", "N")), ("args", ("vec", "R"))], MULTIOP, [])
+        gproc.kind = "Except"; gproc.monadic = True
+        tr.register("gates", "process", gproc)
+        T(t, "qasm/int/mod.rs", "process_apply_gate", "int_process_apply_gate", struct="Int", impl=I, default_elem="str",
+          param_types={"args": ("vec", ("struct", "PExpr"))})
+        # process_if calls process_node on the gate application it guards, and process_node calls process_if: the cycle is cut
+        # by translating that call through `int_process_node_apply` (process_node restricted to `ApplyGate`, whose arm is
+        # checked here to be the plain call of process_apply_gate; Lemmas/GenInt.lean proves it equal to int_process_node)
+        pn = find_fn(t, "process_node", impl=I)[2]
+        arm = [b for pat, g, b in unparen(pn[2])[2] if pat[0] == "ppath" and pat[1] == ["AstNode", "ApplyGate"]
+               and pat[2] == [("pid", "name"), ("pid", "regs"), ("pid", "args")]]
+        want_arm = ("mcall", ("path", ["self"]), "process_apply_gate", [("path", ["changes"]), ("path", ["name"]), ("path", ["regs"]), ("path", ["args"])])
+        if len(arm) != 1 or strip_parens(arm[0] if arm[0][0] != "block" or arm[0][1] else arm[0][2]) != want_arm:
+            raise Unsupported("qasm/int/mod.rs::process_if: the ApplyGate arm of process_node is not `self.process_apply_gate(changes, name, regs, args)`")
+        tr.out.append("/-- `process_node` on a gate application (its `ApplyGate` arm) -/\n"
+                      "def int_process_node_apply (self_ : Interp R) (changes : Interp R) (node : Node R) : Except IntError (Interp R) :=\n"
+                      "  match node with | Node.apply c => int_process_apply_gate self_ changes c.name c.regs c.args | _ => Except.ok changes\n")
+        pna = Sig("int_process_node_apply", [("self", INT), ("changes", INT), ("node", ("struct", "AstNode"))], "unit", ["changes"])
+        pna.kind = "Except"; pna.monadic = True
+        tr.register("Int", "process_node", pna)
+        T(t, "qasm/int/mod.rs", "process_if", "int_process_if", struct="Int", impl=I, default_elem="str")
+        mnew = Sig("Macro.new", [("regs", ("vec", "str")), ("args", ("vec", "str")), ("nodes", ("vec", ("struct", "Inner")))], ("struct", "Macro"), [])
+        mnew.kind = "Except"; mnew.monadic = True
+        tr.register("Macro", "new", mnew)         # macros.rs is mirrored by hand (Model/Interp.lean `Macro.new`; text tied by tools/canon.py)
+        T(t, "qasm/int/mod.rs", "process_gate", "int_process_gate", struct="Int", impl=I, default_elem="str",
+          param_types={"nodes": ("vec", ("struct", "Inner"))})
+        NODES = ("vec", ("struct", "AstNode"))
+        T(t, "qasm/int/mod.rs", "process_node", "int_process_node", struct="Int", impl=I, default_elem="str")
+        T(t, "qasm/int/mod.rs", "process_nodes", "int_process_nodes", struct="Int", impl=I, default_elem="str", param_types={"nodes": NODES})
+        T(t, "qasm/int/mod.rs", "ast_changes", "int_ast_changes", struct="Int", impl=I, default_elem="str")
+        T(t, "qasm/int/mod.rs", "add_ast", "int_add_ast", struct="Int", impl=I, default_elem="str")
+        T(t, "qasm/int/mod.rs", "new", "int_new", struct="Int", impl=I, default_elem="str")
+        tr.out.append("end intstmts\n")
+    group("qasm/int/mod.rs", intfile2)
     # twins table
     text = "\n".join(out + tr.out)
     text += "\n/-- every `match` on the threading model whose parallel arm is the sequential arm with rayon adaptors -/\n"
